@@ -66,6 +66,15 @@ func init() {
 				}
 				cases = append(cases, Case{"doc": Doc{{Deg: "1", Sym: "7", Vals: []Frac{{1, 1}}}}, "tracks": tr, "program": -1, "instrument": "\x00default", "ofile": false, "flags": Flags{}, "huge": true})
 			}
+			// durations at and beyond what a delta time can hold (4-byte variable-length quantity = 2^28 - 1 ticks = 279,620 beats):
+			// whatever is written must still be a well-formed file (a refusal leaves no file, which claims nothing)
+			long := func(n int) Inst { return Inst{Deg: "1", Sym: "", Vals: []Frac{{n, 1}}} }
+			for i, d := range []Doc{{long(279620)}, {long(279621)}, {long(1), {Rest: true, Vals: []Frac{{300000, 1}}}, long(1)}, {long(100000), long(100000), long(79621)},
+				{long(4473925)}, {long(1), {Rest: true, Vals: []Frac{{4473925, 1}}}}, {long(139810), long(139810)}, {long(17476), long(17476), long(244668)}} {
+				for _, tr := range []int{1, 2, 5} {
+					cases = append(cases, Case{"doc": d, "tracks": tr, "program": -1, "instrument": "\x00default", "ofile": (i+tr)%3 == 0, "flags": Flags{}})
+				}
+			}
 			// every program number once, on a tiny document
 			if !c.quick() {
 				for p := 0; p < 256; p++ {
